@@ -7,6 +7,7 @@ import (
 	"fmt"
 	"sync"
 	"sync/atomic"
+	"time"
 
 	"github.com/0chain/common/core/util/wmpt"
 
@@ -234,6 +235,12 @@ func C12(tier rt.Tier) int {
 	// own idiom takes weight 0 for "empty", see C10)
 	cs = append(cs, content{[]int{0, 1}, []string{"z", "a"}}, content{[]int{0, 5}, []string{"a", "z"}}, content{[]int{0, 1, 2}, []string{"z", "z", "a"}}, content{[]int{0, 2, 5}, []string{"z", "a", "z"}})
 	// (A) small contents: every subset of the six keys as request, every follow-up sequence
+	budgetA := 6 * time.Minute
+	if tier == rt.Thorough {
+		budgetA = 14 * time.Minute
+	}
+	deadlineA := time.Now().Add(budgetA)
+	var skippedA int64
 	for _, c := range cs {
 		for _, mode := range modes {
 			// the six alphabet keys plus two never-stored keys: x2 falls into an empty slot of the root
@@ -266,6 +273,10 @@ func C12(tier rt.Tier) int {
 				c, mode, req, name := c, mode, req, name
 				ops := opsFor(req, kis)
 				tasks <- func() {
+					if time.Now().After(deadlineA) {
+						atomic.AddInt64(&skippedA, 1) // time budget of part (A): reported as a cap
+						return
+					}
 					atomic.AddInt64(&run.cases, 1)
 					sequences(ops, d, nil, func(f []fop) { run.runCase(c, mode, req, name, f) })
 				}
@@ -387,6 +398,9 @@ func C12(tier rt.Tier) int {
 	}
 	close(tasks)
 	wg.Wait()
+	if skippedA > 0 {
+		rep.NotExhaustive(fmt.Sprintf("part (A): time budget of %v reached, %d (content, mode, request) cases not run (contents are enumerated smallest first)", budgetA, skippedA))
+	}
 	nd := 0
 	run.distinct.Range(func(_, _ any) bool { nd++; return true })
 	rep.Set("states", int(run.cases))
